@@ -216,6 +216,13 @@ def build_case(r, o):
         tf = {"side": o["tf_side"], "form": o["tf_form"], **rand_tf(r, o["tf_kind"])}
         if o["tf_side"] == "both":
             tf["other"] = rand_tf(r, r.choice(["se3", "sim3"]))
+    if o["plane"] and not (o["align"] or o["correct_scale"] or o["align_origin"] or o["tf_side"]) and r.random() < 0.6:
+        # positions already in the plane (z = 0 throughout: 2-D SLAM, wheel odometry) with full 3-D orientations, and nothing that
+        # moves them out of it before the final projection: the orientations must still be projected
+        nd = {"xy": 2, "xz": 1, "yz": 0}[o["plane"]]
+        for tr_ in trajs + ([ref] if ref else []):
+            for p_ in tr_["pos"]:
+                p_[nd] = 0.0
     case = {"ties": ties, "sub": sub, "trajs": trajs, "ref": ref, "ref_listed": o["ref"] == "listed" and ref is not None,
             "downsample": o["downsample"], "motion_filter": o["motion_filter"], "merge": o["merge"], "t_offset": o["t_offset"],
             "sync": o["sync"], "align": o["align"], "correct_scale": o["correct_scale"], "n_to_align": o["n_to_align"],
